@@ -18,7 +18,7 @@ from __future__ import annotations
 import ast
 
 from ..cfg import CFG
-from ..core import AnalysisError, call_name, contains_yield, names_in, short, walk_no_nested
+from ..core import AnalysisError, assignments, call_name, contains_yield, names_in, short, walk_no_nested
 from ..util import calls_named, has_call, norm, stored_paths
 
 M2 = "molli.parsing.mol2"
@@ -123,7 +123,9 @@ def _record_loops(f):
 
 
 def r2_count_loops(chk, rm, rx):
-    for f in (rm, rx):
+    from ..inline import loopify
+
+    for f in (loopify(rm), loopify(rx)):
         loops = _record_loops(f)
         chk.require(loops, f"{f.key}: no record-filling loop found")
         for l in loops:
@@ -430,6 +432,10 @@ def r7_suppression_rearmed(chk, rm):
             guards.append((g, g.test.operand.id))
         if isinstance(g, ast.If) and isinstance(g.test, ast.Name) and any(isinstance(x, ast.Raise) for b in g.orelse for x in ast.walk(b)):
             guards.append((g, g.test.id))
+    # a flag is a local that only ever holds True/False constants (`if not counts: raise` is not a flag test)
+    asg = assignments(rm.node)
+    guards = [(g, f) for g, f in guards
+              if asg.get(f) and all(isinstance(v, ast.Constant) and isinstance(v.value, bool) for v in asg[f])]
     key = f"{rm.key}:error-suppression-rearmed-at-every-tag"
     if not guards:
         chk.ok("C10.R7", key, rm.where(), "no flag suppresses the 'unexpected line' error")
